@@ -7,3 +7,5 @@ import AkVerif.Props.C12
 import AkVerif.Props.C15
 import AkVerif.Props.C18
 import AkVerif.Props.C08
+import AkVerif.Props.C03
+import AkVerif.Props.C13
